@@ -77,6 +77,13 @@ def configs(tier, seed):
                 if (not quick) and shape == "T1" and al == "exact" and vi == 0:
                     d = 5
                 out.append(("%s/%s/%s" % (shape, al, _vname(v)), spec, ops, d))
+    # a price path touching exactly zero (positions stay open at zero value) and recovering
+    for vi, v in enumerate(vs[:2] if quick else variants):
+        spec = dict(v, shape="T1", alpha="exact", capital=64.0, ndates=4, prices={"a": [4.0, 0.0, 2.0, 0.0], "b": [1.0, 2.0, 0.0, 1.0]})
+        out.append(("T1/zero/%s" % _vname(v), spec, alpha.base_ops("T1") + [["next_raw"]], 3 if quick else 4))
+        # ... and from a non-initial state: a position is open while the price sits at zero twice
+        spec = dict(v, shape="T1", alpha="exact", capital=64.0, ndates=4, prices={"a": [4.0, 0.0, 0.0, 2.0], "b": [1.0, 2.0, 0.0, 1.0]}, preops=[["transact", [], "a", 3.0], ["next"]])
+        out.append(("T1/zero2/%s" % _vname(v), spec, alpha.base_ops("T1") + [["next_raw"]], 2 if quick else 3))
     return out
 
 
